@@ -333,7 +333,7 @@ class SubprocessTestCaseExecutor(TestCaseExecutor):
             else:
                 (
                     new_tracer,
-                    new_module_provider,
+                    _,  # mutants are pickled by name: the copy of the provider has lost them
                     results,
                     new_references_bindings,
                     random_state,
@@ -347,8 +347,6 @@ class SubprocessTestCaseExecutor(TestCaseExecutor):
                     context.process.kill()
 
                 randomness.RNG.setstate(random_state)
-
-                self._module_provider = new_module_provider
 
                 for result, reference_bindings, new_reference_bindings in zip(
                     results, context.references_bindings, new_references_bindings, strict=True
